@@ -139,9 +139,13 @@ def scale(draw):
 
 @st.composite
 def centre(draw):
-    k = draw(st.integers(0, 7))
+    k = draw(st.integers(0, 8))
     if k == 0:
         return [0.0, 0.0]
+    if k == 8:
+        # a centre that is not 0 but nearly so (what 1 + exp(i pi) leaves behind)
+        return draw(st.sampled_from([[0.0, 1.2246467991473532e-16], [3e-9, -4e-9],
+                                     [-2e-12, 0.0]]))
     if k == 1:        # modulus one (the normalisation of the centre is then invisible)
         th = draw(angle())
         return [math.cos(th), math.sin(th)]
@@ -297,7 +301,17 @@ def build_cr(disks, single):
     if single:
         D = CP1Disk(np.array(cs[0]), np.array(rs[0]))
         return D.complement() if outs[0] else D
-    D = CP1Disk(gen.flavoured(cs.copy()), gen.flavoured(rs.copy()))
+    # the centres as complex numbers or as point objects: a CP1Point in its affine
+    # coordinate, or a generic projective.Point in chart 0 (what Transformation.eigenvector
+    # or T @ Point hands back)
+    how = (len(disks) + int(np.sum(outs))) % 3
+    if how == 1:
+        ctr = CP1Point(cs.copy(), coords="cx_affine")
+    elif how == 2:
+        ctr = projective.Point(cs.copy()[:, np.newaxis], chart_index=0)
+    else:
+        ctr = gen.flavoured(cs.copy())
+    D = CP1Disk(ctr, gen.flavoured(rs.copy()))
     if outs.all():
         return D.complement()
     if outs.any():
